@@ -103,6 +103,14 @@ CHECKS = {
               "non-Markov guess of the edited ruleset must respect the bounds. One open finding (F20: context label X<n> counted as n "
               "characters) is reported as KNOWN-FINDING and excluded from the alarm by its signature only. Exploration."),
         design='4/C20'),
+    'C10': dict(
+        technique="Hypothesis property-based testing of generated OMEN models x every level, and a Hypothesis RuleBasedStateMachine over cache histories (shared optimizer), against an independent DFS reference enumerator; deterministic work budget instead of timeouts",
+        text=("Generated OMEN models (n-gram 2-5, sparse/dense, dead-end and expensive-only contexts, length == n-gram size) are written "
+              "to disk, loaded by the real loader and every level 0..12 is generated by the real MarkovCracker: no duplicates, set "
+              "equal to an independent enumerator's, exhaustion reported. A rule-based state machine interleaves full runs, "
+              "abandoned partial runs, and optimizer replacement on one shared cache and checks every full run against the "
+              "reference, so results cannot depend on cache contents or generation history. Exploration."),
+        design='4/C10'),
 }
 
 NOT_YET = "check not built yet in this round (design exists in DESIGN.md section 4); not claimed until it runs"
